@@ -25,7 +25,12 @@
 #       was asserted since the last entry to polling / recovery; and off if our side asks constantly or the partner asked
 #       while we were sending TS1/TS2 in this training.
 # Wherever the class is stricter than this monitor (e.g. it wants TS2 seen *before* the completed burst) the monitor
-# accepts both.
+# accepts both; a partner detection strobed in the very cycle of a reset is counted as made since that reset.
+#
+# The exploration is a closure (frontier runs empty) within these bounds: alphabet profile of the configuration
+# (train / reset / modes sliced alphabets for the quick tier, `full` = everything everywhere in the thorough tier),
+# `stay`+1 single-stepped cycles at the start of each substate visit, the cycles T-2..T+4 around its time-out T, and
+# one quiet wait in between.
 import os
 from rtlmc.model import Design, Violation
 from rtlmc.explore import Spec
